@@ -396,7 +396,8 @@ impl DateFilter for ds::MonthdayRange {
                     }
                 };
 
-                Some(next_change_from_bounds(date, [start], [end]))
+                // `end` is the first day following the range while bounds are inclusive
+                Some(next_change_from_bounds(date, [start], [end.pred_opt()?]))
             }
             ds::MonthdayRange::Date {
                 start:
